@@ -59,4 +59,17 @@ inline int rounded_phase(const ref::T32 *a, ref::T32 b, const int32_t *s, int n,
 // deep byte snapshot of everything reachable from a cloud key (parameters, key-switching rows, TGSW rows, FFT image)
 inline uint64_t hash_lwe(const LweSample *s, int n, uint64_t h) { h = vf::fnv(s->a, n * 4, h); h = vf::fnv(&s->b, 4, h); return vf::fnv(&s->current_variance, 8, h); }
 
+inline uint64_t hash_tlwe(const TLweSample *s, int N, int k, uint64_t h) { for (int i = 0; i <= k; i++) h = vf::fnv(s->a[i].coefsT, N * 4, h); return vf::fnv(&s->current_variance, 8, h); }
+inline uint64_t hash_lweparams(const LweParams *p, uint64_t h) { h = vf::fnv(&p->n, 4, h); h = vf::fnv(&p->alpha_min, 8, h); return vf::fnv(&p->alpha_max, 8, h); }
+inline uint64_t hash_tgswparams(const TGswParams *g, uint64_t h) { h = vf::fnv(&g->l, 4, h); h = vf::fnv(&g->Bgbit, 4, h); h = vf::fnv(&g->Bg, 4, h); h = vf::fnv(&g->halfBg, 4, h); h = vf::fnv(&g->maskMod, 4, h); h = vf::fnv(&g->kpl, 4, h); h = vf::fnv(&g->offset, 4, h); h = vf::fnv(g->h, g->l * 4, h);
+    const TLweParams *t = g->tlwe_params; h = vf::fnv(&t->N, 4, h); h = vf::fnv(&t->k, 4, h); h = vf::fnv(&t->alpha_min, 8, h); h = vf::fnv(&t->alpha_max, 8, h); return hash_lweparams(&t->extracted_lweparams, h); }
+inline uint64_t hash_ks(const LweKeySwitchKey *ks, uint64_t h) { h = vf::fnv(&ks->n, 4, h); h = vf::fnv(&ks->t, 4, h); h = vf::fnv(&ks->basebit, 4, h); h = vf::fnv(&ks->base, 4, h); h = hash_lweparams(ks->out_params, h); int tot = ks->n * ks->t * ks->base; for (int r = 0; r < tot; r++) h = hash_lwe(&ks->ks0_raw[r], ks->out_params->n, h); return h; }
+// deep hash of everything reachable from a bootstrapping key pair (coefficient image, FFT image, both key-switching keys, all parameters)
+inline uint64_t hash_bk(const LweBootstrappingKey *bk, const LweBootstrappingKeyFFT *bf, uint64_t h = 1469598103934665603ULL) {
+    int n = bk->in_out_params->n, N = bk->bk_params->tlwe_params->N, k = bk->bk_params->tlwe_params->k, kpl = bk->bk_params->kpl;
+    h = hash_lweparams(bk->in_out_params, h); h = hash_tgswparams(bk->bk_params, h); h = hash_ks(bk->ks, h);
+    for (int i = 0; i < n; i++) for (int p = 0; p < kpl; p++) h = hash_tlwe(&bk->bk[i].all_sample[p], N, k, h);
+    if (bf) { h = hash_ks(bf->ks, h); for (int i = 0; i < n; i++) for (int p = 0; p < kpl; p++) { const TLweSampleFFT *s = &bf->bkFFT[i].all_samples[p]; for (int q = 0; q <= k; q++) h = vf::fnv(s->a[q].data, (size_t)N * 8, h); h = vf::fnv(&s->current_variance, 8, h); } }
+    return h;
+}
 } // namespace gates
